@@ -468,7 +468,7 @@ class Verifier(InspectMixin, QuantMixin, LoopMixin, ExprMixin, CallMixin, StmtMi
         for key, (ent, ks) in groups.items():
             if ent is None or ent[0] != 'method':
                 continue
-            vals.append((ks, self.static_val(BoundMethod(obj, self.method_target(ent[1])))))
+            vals.append((ks, self.bound_method_val(obj, self.method_target(ent[1]))))
         if len(vals) == 1:
             v = vals[0][1]
         else:
@@ -537,6 +537,14 @@ class Verifier(InspectMixin, QuantMixin, LoopMixin, ExprMixin, CallMixin, StmtMi
         c = self.truthy(self.ev(e.args[0], fr))
         self.assume_checked(c)
         return smt.NONE
+
+    def prim_define(self, e, fr):
+        """define(cond): an instance of the DEFINITION of an uninterpreted spec predicate (uf(...)) the contract author
+        introduces - added as an axiom under the guards of the clause evaluation so far.  Every contract using it is
+        listed in the trusted base (a wrong 'definition' is an inconsistent assumption)."""
+        c = self.truthy(self.ev(e.args[0], fr))
+        self.assume_about_fresh(c) if self.sub_depth > 0 else self._add_axiom(c)
+        return smt.TRUE
 
     def norm_val(self, v, depth: int = 0):
         """the effect of json.loads(json.dumps(v)) on a JSON-encodable value (assumed contract of the
